@@ -5,6 +5,7 @@ import (
 	"encoding/hex"
 	"fmt"
 	"math/big"
+	"strings"
 
 	"verifharness/cv"
 )
@@ -374,6 +375,20 @@ func (d *driver) generate() {
 				continue
 			}
 			d.st.Hit(fmt.Sprintf("event:topics=%d", nt))
+			{
+				ins := make([]string, len(t.Kids))
+				for k, kid := range t.Kids {
+					ins[k] = fmt.Sprintf("(%s, %v)", kid.Coq(), kid.Indexed)
+				}
+				tps := make([]string, len(topics))
+				for k, tp := range topics {
+					tps[k] = cv.CoqBytes(unhex(tp))
+				}
+				desc := map[string]interface{}{"kind": "event", "type": t.Sig(), "anonymous": anon, "topics": topics, "impl_class": rs.Cls,
+					"impl_tree": rs.Tree, "impl_err": rs.Err, "request": rq}
+				d.w.Add(fmt.Sprintf("CEvent %s %v [%s] [%s] %s %d %d %d %d", cv.CoqBytes([]byte("Ev")), anon, strings.Join(ins, "; "),
+					strings.Join(tps, "; "), cv.Compress(data).Coq(), rs.Cls, rs.DigLen, rs.DigA, rs.DigB), desc)
+			}
 			need := nIdx
 			if !anon {
 				need++
@@ -444,7 +459,20 @@ func (d *driver) generate() {
 			continue
 		}
 		d.st.Hit("mut:" + mut)
-		// the memory clause for revert data: bound over the definition that could match
+		{
+			es := make([]string, len(defs))
+			for j, df := range defs {
+				tys := make([]string, len(ts[j].Kids))
+				for k, kid := range ts[j].Kids {
+					tys[k] = kid.Coq()
+				}
+				es[j] = fmt.Sprintf("(%s, [%s])", cv.CoqBytes([]byte(df.Name)), strings.Join(tys, "; "))
+			}
+			desc := map[string]interface{}{"kind": "error", "mutation": mut, "impl_class": rs.Cls, "impl_matched": rs.Matched,
+				"impl_tree": rs.Tree, "request": rq}
+			d.w.Add(fmt.Sprintf("CError [%s] %s %d %s %d %d %d", strings.Join(es, "; "), cv.Compress(data).Coq(), rs.Cls,
+				cv.CoqBytes([]byte(rs.Matched)), rs.DigLen, rs.DigA, rs.DigB), desc)
+		}
 		if rs.Cls == 0 && rs.Matched == "" {
 			d.fail("ParseError reported success without an entry", "", rq, nil)
 		}
